@@ -128,5 +128,34 @@ Record tracer_fact := mkTracerFact {
 }.
 Definition tracer_ok (f : tracer_fact) : bool := String.eqb (tf_method f) (tf_callee f) && tf_args_same f.
 
+(* bind order: for every statement whose placeholders are all written out as `?` and whose text names the column of each
+   placeholder (`col` = ?   or   (`c1`, `c2`) VALUES (?,?)), the i-th placeholder's column constant and the declared Go
+   type of the i-th bind argument when that argument is a parameter of the method ("?" otherwise) *)
+Record bind_fact := mkBindFact {
+  bf_op : string;
+  bf_idx : nat;          (* statement index inside the method (source order of the executed calls) *)
+  bf_pos : nat;          (* placeholder number *)
+  bf_column : string;    (* Go expression substituted for the column name *)
+  bf_arg : string;       (* source text of the bind argument *)
+  bf_type : string       (* declared type of the argument, "?" if it is not a parameter *)
+}.
+
+(* which Go types may be bound to a column, decided by the column constant's name *)
+Definition column_types (col : string) : option (list string) :=
+  if str_suffix "FieldMessageRemoteID" col || str_suffix "FieldRemoteID" col then Some ["imap.MailboxID"; "imap.MessageID"]
+  else if str_suffix "FieldMessageID" col || str_suffix "FieldMailboxID" col || str_suffix "FieldID" col
+       then Some ["imap.InternalMailboxID"; "imap.InternalMessageID"; "int"]
+  else if str_suffix "FieldName" col || str_suffix "FieldValue" col then Some ["string"]
+  else if str_suffix "FieldUIDValidity" col || str_suffix "FieldUID" col then Some ["imap.UID"]
+  else if str_suffix "FieldSubscribed" col || str_suffix "FieldDeleted" col || str_suffix "FieldRecent" col then Some ["bool"]
+  else None.
+
+Definition bind_ok (f : bind_fact) : bool :=
+  if String.eqb (bf_type f) "?" then true
+  else match column_types (bf_column f) with
+       | Some l => str_in (bf_type f) l
+       | None => true
+       end.
+
 Definition find_stmt (op : string) (idx : nat) (tbl : list stmt_fact) : option stmt_fact :=
   find (fun f => String.eqb (sf_op f) op && Nat.eqb (sf_idx f) idx) tbl.
